@@ -81,6 +81,37 @@ fn main() {
         }
         return;
     }
+    if a[1] == "--finalexp" {
+        // final exponentiations on an element that is NOT a Miller-loop output: x -> x^((q^12-1)/r) must have order
+        // dividing r, and both routines must agree
+        use sm9_kani::common::*;
+        use sm9_core::verif_hooks::pairing_hooks as ph;
+        let f = |i: u64| fq_from_raw([i, 3 * i + 1, 7, 11]);
+        let q2 = |i: u64| RawFq2::new(f(i), f(i + 100));
+        let x = Fq12::new(Fq4::new(q2(1), q2(2)), Fq4::new(q2(3), q2(4)), Fq4::new(q2(5), q2(6)));
+        let a1 = ph::final_exponentiation(&x).unwrap();
+        let a2 = ph::final_exp(&x).unwrap();
+        let rm1 = -RawFr::one();
+        let t = FieldElement::pow(&a1, rm1) * a1;
+        if a1 != a2 { println!("MISMATCH final_exponentiation(x) != final_exp(x) on a generic element"); }
+        else if t != Fq12::one() { println!("MISMATCH final_exponentiation(x)^r != 1"); }
+        else { println!("OK"); }
+        return;
+    }
+    if a[1] == "--divrem" {
+        // replay --divrem <x: 128 hex digits> <m: 64 hex digits>: remainder of the real U512::divrem
+        use sm9_kani::common::*;
+        let mut xb = [0u8; 64];
+        for i in 0..64 { xb[i] = u8::from_str_radix(&a[2][2 * i..2 * i + 2], 16).expect("hex"); }
+        let mut mb = [0u8; 32];
+        for i in 0..32 { mb[i] = u8::from_str_radix(&a[3][2 * i..2 * i + 2], 16).expect("hex"); }
+        let x = U512::from_slice(&xb).unwrap();
+        let m = U256::from_slice(&mb).unwrap();
+        let (_q, r) = x.divrem(&m);
+        let l = u256_limbs(&r);
+        println!("{:016x}{:016x}{:016x}{:016x}", l[3], l[2], l[1], l[0]);
+        return;
+    }
     if a[1] == "--pow" {
         // replay --pow <fr|fq> <a hex> <k hex>: a^k through the public pow; --pow gt "" <k hex>: Gt::pow vs square-and-multiply
         use sm9_core::{pairing, Fr, Fq, Group, Gt, G1, G2};
